@@ -199,7 +199,7 @@ theorem proj (j : Nat) (es : List Ev) (s : State) :
       rw [lrun_cons_self j _ e es h]
       simp only [obsOf_append, ih1, ih2, hs, ho, and_self]
     · have hs : getSub (step s e).1 j = getSub s j := by
-        rw [step_fst]; simp [fun h' : j = idx e => h h'.symm]
+        rw [step_fst]; exact if_neg (fun h' => h h'.symm)
       have ho : obsOf j (step s e).2 = [] := by rw [step_snd]; exact obsOf_lstep_other _ e j h
       rw [lrun_cons_other j _ e es h]
       simp only [obsOf_append, ih1, ih2, hs, ho, List.nil_append, and_self]
@@ -254,7 +254,13 @@ theorem inv_lstep (j : Nat) (b : Sub) (o : List Obs) (e : Ev) (he : idx e = j) (
   | bump j' =>
     cases pc <;> simp_all [lstep, idx, Inv]
   | deliver j' =>
-    cases pc <;> simp_all [lstep, idx, Inv, List.range_succ]
+    cases pc
+    case emitting v =>
+      obtain ⟨h1, h2⟩ : v + 1 = i ∧ o = Obs.greet j :: List.map (Obs.data j) (List.range v) := by simpa [Inv] using h
+      subst h1 h2
+      have he' : j' = j := he
+      simp [lstep, Inv, List.range_succ, he']
+    all_goals simp_all [lstep, idx, Inv]
   | dispose j' =>
     cases pc <;> simp_all [lstep, idx, Inv]
 
@@ -266,4 +272,188 @@ theorem inv_run (j : Nat) (es : List Ev) : Inv j (getSub (run [] es).1 j) (obsOf
   have ⟨h1, h2⟩ := proj j es []
   rw [h1, h2, getSub_nil]; exact inv_lrun j es
 
+/-- the data part of the invariant -/
+theorem inv_data (j : Nat) (b : Sub) (o : List Obs) (h : Inv j b o) :
+    dataOf j o = List.range (b.i - match b.pc with | .emitting _ => 1 | _ => 0) ∧
+    (match b.pc with | .emitting _ => 1 | _ => 0) ≤ b.i := by
+  rcases b with ⟨pc, i, c⟩
+  cases pc
+  case emitting v =>
+    obtain ⟨h1, h2⟩ : v + 1 = i ∧ o = Obs.greet j :: List.map (Obs.data j) (List.range v) := by simpa [Inv] using h
+    subst h1 h2
+    simp [dataOf_greet_map]
+  case none => simp_all [Inv, dataOf]
+  case failed =>
+    obtain ⟨⟨r, _, h2⟩, h3⟩ : (∃ r, r ≠ SpawnRes.ok ∧ o = [Obs.error j r]) ∧ i = 0 := by simpa [Inv] using h
+    subst h2 h3
+    simp [dataOf]
+  all_goals
+    have h2 : o = Obs.greet j :: List.map (Obs.data j) (List.range i) := by simpa [Inv] using h
+    subst h2
+    simp [dataOf_greet_map]
+
+/-! ## the theorems -/
+
+/-- C16 (counting): every subscription receives 0, 1, 2, …, k-1 — exactly the numbers below the count of its completed
+emissions -/
+theorem data_is_range (es : List Ev) (j : Nat) :
+    ∃ k, dataOf j (run [] es).2 = List.range k := by
+  have h := (inv_data j _ _ (inv_run j es)).1
+  rw [dataOf_obsOf] at h
+  exact ⟨_, h⟩
+
+/-- … one number per processed expiry: the count of data received equals the task's counter, minus one if an emission is in
+flight -/
+theorem data_count (es : List Ev) (j : Nat) :
+    (dataOf j (run [] es).2).length + (match (getSub (run [] es).1 j).pc with | .emitting _ => 1 | _ => 0)
+      = (getSub (run [] es).1 j).i := by
+  have ⟨h, hle⟩ := inv_data j _ _ (inv_run j es)
+  rw [dataOf_obsOf] at h
+  rw [h, List.length_range]
+  omega
+
+/-- C16 (independence): what subscription `j` receives depends only on the events that concern `j` -/
+theorem independent (es : List Ev) (j : Nat) :
+    dataOf j (run [] es).2 = dataOf j (run [] (es.filter (about j))).2 := by
+  rw [proj_data, proj_data, lrun_filter]
+
+/-- the same for everything sink `j` observes (greeting, data, error) and for its sub-state -/
+theorem independent_obs (es : List Ev) (j : Nat) :
+    obsOf j (run [] es).2 = obsOf j (run [] (es.filter (about j))).2 ∧
+    getSub (run [] es).1 j = getSub (run [] (es.filter (about j))).1 j := by
+  rw [(proj j es []).1, (proj j es []).2, (proj j _ []).1, (proj j _ []).2, lrun_filter]
+  exact ⟨rfl, rfl⟩
+
+/-- a task that has exited stays exited and silent -/
+theorem lrun_exited (j : Nat) (es : List Ev) (b : Sub) (h : b.pc = .exited) :
+    (lrun j b es).2 = [] ∧ (lrun j b es).1.pc = .exited := by
+  induction es generalizing b with
+  | nil => simp [lrun, h]
+  | cons e es ih =>
+    by_cases he : idx e = j
+    · have hs : (lstep b e).2 = [] ∧ (lstep b e).1.pc = .exited := by
+        rcases b with ⟨pc, i, c⟩
+        cases h
+        cases e <;> simp [lstep]
+      rw [lrun_cons_self j b e es he, hs.1]
+      simpa using ih _ hs.2
+    · rw [lrun_cons_other j b e es he]; exact ih b h
+
+/-- C16 (silence): once a tick has observed the disposal (the task exited), nothing is ever delivered to that subscription
+again (in fact the sink observes nothing at all: `silent_after_exit_obs`) -/
+theorem silent_after_exit (s : State) (es : List Ev) (j : Nat) (h : (getSub s j).pc = .exited) :
+    dataOf j (run s es).2 = [] ∧ (getSub (run s es).1 j).pc = .exited := by
+  have ⟨h1, h2⟩ := lrun_exited j es _ h
+  rw [proj_data, (proj j es s).1, h1]
+  exact ⟨rfl, h2⟩
+
+theorem silent_after_exit_obs (s : State) (es : List Ev) (j : Nat) (h : (getSub s j).pc = .exited) :
+    obsOf j (run s es).2 = [] := by
+  rw [(proj j es s).2]; exact (lrun_exited j es _ h).1
+
+/-- how many more emissions can arrive once `interval_cleared` is set -/
+def bd : PC → Nat
+  | .checked => 1 | .emitting _ => 1 | _ => 0
+
+theorem lrun_cleared (j : Nat) (es : List Ev) (b : Sub) (h : b.cleared = true) (hn : b.pc ≠ .none) :
+    (dataOf j (lrun j b es).2).length ≤ bd b.pc := by
+  induction es generalizing b with
+  | nil => simp [lrun, dataOf]
+  | cons e es ih =>
+    by_cases he : idx e = j
+    · have hs : (lstep b e).1.cleared = true ∧ (lstep b e).1.pc ≠ .none ∧
+          (dataOf j (lstep b e).2).length + bd (lstep b e).1.pc ≤ bd b.pc := by
+        rcases b with ⟨pc, i, c⟩
+        cases h
+        have he' : idx e = j := he
+        cases e <;> cases pc <;> simp_all [lstep, bd, dataOf, idx]
+      rw [lrun_cons_self j b e es he, dataOf_append, List.length_append]
+      have := ih _ hs.1 hs.2.1
+      omega
+    · rw [lrun_cons_other j b e es he]; exact ih b h hn
+
+/-- … and from the moment the disposal is requested, at most the one emission already past its check can still arrive.
+
+ADJUSTED: the hypothesis `hn : (getSub s j).pc ≠ .none` is added.  Without it the statement is false for arbitrary (unreachable)
+`s`: see `at_most_one_after_dispose_needs_subscribed`.  For reachable states the hypothesis is implied by `cleared = true`:
+`at_most_one_after_dispose_reachable`. -/
+theorem at_most_one_after_dispose (s : State) (es : List Ev) (j : Nat) (h : (getSub s j).cleared = true)
+    (hn : (getSub s j).pc ≠ .none) :
+    (dataOf j (run s es).2).length ≤ (match (getSub s j).pc with | .checked => 1 | .emitting _ => 1 | _ => 0) := by
+  rw [proj_data]
+  exact lrun_cleared j es _ h hn
+
+/-- the version for reachable states, with exactly the originally requested hypothesis -/
+theorem at_most_one_after_dispose_reachable (es0 es : List Ev) (j : Nat)
+    (h : (getSub (run [] es0).1 j).cleared = true) :
+    (dataOf j (run (run [] es0).1 es).2).length ≤
+      (match (getSub (run [] es0).1 j).pc with | .checked => 1 | .emitting _ => 1 | _ => 0) := by
+  refine at_most_one_after_dispose _ es j h ?_
+  intro hpc
+  have hi := inv_run j es0
+  generalize getSub (run [] es0).1 j = b at h hpc hi
+  rcases b with ⟨pc, i, c⟩
+  cases hpc
+  simp_all [Inv]
+
+/-- the statement as originally written (no `pc ≠ .none`) fails on an unreachable state: flag set but not subscribed; the
+subscription then resets the flag -/
+theorem at_most_one_after_dispose_needs_subscribed :
+    ¬ ∀ (s : State) (es : List Ev) (j : Nat), (getSub s j).cleared = true →
+      (dataOf j (run s es).2).length ≤ (match (getSub s j).pc with | .checked => 1 | .emitting _ => 1 | _ => 0) := by
+  intro h
+  have := h [{ pc := .none, i := 0, cleared := true }] [.subscribe 0 .ok, .expire 0, .bump 0, .deliver 0] 0 rfl
+  revert this
+  decide
+
+/-- a subscription whose spawn failed stays failed and silent -/
+theorem lrun_failed (j : Nat) (es : List Ev) (b : Sub) (h : b.pc = .failed) :
+    (lrun j b es).2 = [] ∧ (lrun j b es).1.pc = .failed := by
+  induction es generalizing b with
+  | nil => simp [lrun, h]
+  | cons e es ih =>
+    by_cases he : idx e = j
+    · have hs : (lstep b e).2 = [] ∧ (lstep b e).1.pc = .failed := by
+        rcases b with ⟨pc, i, c⟩
+        cases h
+        cases e <;> simp [lstep]
+      rw [lrun_cons_self j b e es he, hs.1]
+      simpa using ih _ hs.2
+    · rw [lrun_cons_other j b e es he]; exact ih b h
+
+/-- C16 (spawn failure): a subscription whose task cannot be spawned receives exactly one Error and nothing else, ever -/
+theorem spawn_failure (s : State) (es : List Ev) (j : Nat) (r : SpawnRes) (hr : r ≠ .ok) (h : (getSub s j).pc = .none) :
+    obsOf j (run s (.subscribe j r :: es)).2 = [.error j r] := by
+  rw [(proj j _ s).2, lrun_cons_self j _ _ es rfl]
+  have hs : lstep (getSub s j) (.subscribe j r) = ({ pc := .failed }, [.error j r]) := by
+    cases r <;> simp_all [lstep]
+  rw [hs]
+  simp [(lrun_failed j es { pc := .failed } rfl).1]
+
+/-- C01 for interval: a subscription is greeted at most once, and before any of its data -/
+theorem greet_first (es : List Ev) (j : Nat) :
+    obsOf j (run [] es).2 = [] ∨ (∃ r, r ≠ SpawnRes.ok ∧ obsOf j (run [] es).2 = [.error j r]) ∨
+    (∃ vs : List Nat, obsOf j (run [] es).2 = .greet j :: vs.map (Obs.data j)) := by
+  have hi := inv_run j es
+  generalize getSub (run [] es).1 j = b at hi
+  generalize obsOf j (run [] es).2 = o at hi
+  rcases b with ⟨pc, i, c⟩
+  cases pc
+  case none => left; simp_all [Inv]
+  case failed => right; left; exact hi.1
+  case emitting v => right; right; exact ⟨_, hi.2⟩
+  all_goals right; right; exact ⟨_, hi⟩
+
 end Cb.Interval
+
+#print axioms Cb.Interval.data_is_range
+#print axioms Cb.Interval.data_count
+#print axioms Cb.Interval.independent
+#print axioms Cb.Interval.independent_obs
+#print axioms Cb.Interval.silent_after_exit
+#print axioms Cb.Interval.silent_after_exit_obs
+#print axioms Cb.Interval.at_most_one_after_dispose
+#print axioms Cb.Interval.at_most_one_after_dispose_reachable
+#print axioms Cb.Interval.at_most_one_after_dispose_needs_subscribed
+#print axioms Cb.Interval.spawn_failure
+#print axioms Cb.Interval.greet_first
